@@ -741,9 +741,10 @@ fn outcome_class(m: &MsgOp, res: &StepResult, pre: &State, post: &State) -> Stri
     format!("{kind}:{out}")
 }
 
+/// Path of operation indices from the root this state descends from (roots are their own parents).
 pub fn path_to(parents: &[(u32, u32)], mut id: u32) -> Vec<u32> {
     let mut ops = vec![];
-    while id != 0 {
+    while parents[id as usize].0 != id {
         let (p, o) = parents[id as usize];
         ops.push(o);
         id = p;
@@ -753,24 +754,70 @@ pub fn path_to(parents: &[(u32, u32)], mut id: u32) -> Vec<u32> {
 }
 
 pub fn case_json(path_ops: &[&Op], cfgs: &[Cfg]) -> Value {
-    json!({"engine": "ehist", "initial": [], "ops": path_ops.iter().map(|o| op_json(o, cfgs)).collect::<Vec<_>>()})
+    case_json_from(&vec![], path_ops, cfgs)
+}
+
+pub fn case_json_from(initial: &State, path_ops: &[&Op], cfgs: &[Cfg]) -> Value {
+    json!({"engine": "ehist", "initial_state": state_json(initial), "ops": path_ops.iter().map(|o| op_json(o, cfgs)).collect::<Vec<_>>()})
 }
 
 /// Level-synchronous parallel BFS from the empty store.
+pub fn root_of(parents: &[(u32, u32)], mut id: u32) -> u32 {
+    while parents[id as usize].0 != id {
+        id = parents[id as usize].0;
+    }
+    id
+}
+
+/// Stores that long histories reach (a lease grown to the 24 h cap by repeated renewals, an old
+/// long lease that has expired, ...).  The search starts from the empty store *and* from these:
+/// most defects do not manifest from the initial state, and growing a lease to its cap takes more
+/// steps than the depth bound allows.  Each satisfies the invariants C10 itself states
+/// (300 <= expiry - start <= 86400).
+pub fn deep_roots() -> Vec<State> {
+    let a = MAC_A.to_vec();
+    let b = MAC_B.to_vec();
+    let r = |ipa: &str, c: &Vec<u8>, start: i64, len: i64| Row { ip: ip(ipa), client: c.clone(), start, expiry: start + len };
+    vec![
+        vec![],
+        vec![r("192.0.2.10", &a, -40_000, 86_400)],
+        vec![r("192.0.2.10", &a, -100_000, 86_400)],
+        vec![r("192.0.2.10", &a, -30_000, 86_400), r("192.0.2.11", &b, -100, 300)],
+        vec![r("192.0.2.11", &a, -50_000, 60_000), r("192.0.2.10", &b, -90_000, 86_400)],
+    ]
+}
+
 pub fn bfs(cfgs: &[Cfg], alpha: &Alphabet, max_depth: u32, budget_s: f64, state_cap: usize, keep_reached_depth: u32) -> Result<(BfsStats, Vec<Found>), String> {
+    bfs_from(cfgs, alpha, &[vec![]], max_depth, budget_s, state_cap, keep_reached_depth)
+}
+
+pub fn bfs_from(cfgs: &[Cfg], alpha: &Alphabet, roots: &[State], max_depth: u32, budget_s: f64, state_cap: usize, keep_reached_depth: u32) -> Result<(BfsStats, Vec<Found>), String> {
     let t0 = std::time::Instant::now();
-    let mut states: Vec<State> = vec![vec![]];
-    let mut depth_of: Vec<u32> = vec![0];
-    let mut parents: Vec<(u32, u32)> = vec![(0, 0)];
+    let mut states: Vec<State> = vec![];
+    let mut depth_of: Vec<u32> = vec![];
+    let mut parents: Vec<(u32, u32)> = vec![];
     let mut index: HashMap<Vec<u8>, u32> = HashMap::new();
-    index.insert(key_of(&states[0]), 0);
-    let mut frontier: Vec<u32> = vec![0];
+    let mut frontier: Vec<u32> = vec![];
+    for r in roots {
+        let mut r = r.clone();
+        r.sort();
+        let k = key_of(&r);
+        if index.contains_key(&k) {
+            continue;
+        }
+        let id = states.len() as u32;
+        index.insert(k, id);
+        states.push(r);
+        depth_of.push(0);
+        parents.push((id, 0));
+        frontier.push(id);
+    }
     let mut transitions = 0u64;
     let mut outcome_classes: BTreeMap<String, u64> = BTreeMap::new();
     let mut found: Vec<Found> = vec![];
     let mut found_keys: BTreeSet<String> = BTreeSet::new();
     let mut samples: Vec<Value> = vec![];
-    let mut states_per_depth = vec![1u64];
+    let mut states_per_depth = vec![frontier.len() as u64];
     let mut depth_completed = 0;
     let mut capped = false;
 
@@ -839,7 +886,8 @@ pub fn bfs(cfgs: &[Cfg], alpha: &Alphabet, max_depth: u32, budget_s: f64, state_
                                 continue;
                             }
                             found_keys.insert(fk);
-                            let mut v = Violation::new(jd.oracle, jd.what, case_json(&ops, cfgs));
+                            let root = root_of(&parents, sid);
+                            let mut v = Violation::new(jd.oracle, jd.what, case_json_from(&states[root as usize], &ops, cfgs));
                             for (k, val) in jd.sig {
                                 v = v.sig(k, val);
                             }
@@ -855,7 +903,7 @@ pub fn bfs(cfgs: &[Cfg], alpha: &Alphabet, max_depth: u32, budget_s: f64, state_
                         let mut p = path_to(&parents, sid);
                         p.push(oi);
                         let ops: Vec<&Op> = p.iter().map(|i| &alpha.ops[*i as usize]).collect();
-                        samples.push(case_json(&ops, cfgs));
+                        samples.push(case_json_from(&states[root_of(&parents, sid) as usize], &ops, cfgs));
                     }
                 }
             }
